@@ -77,6 +77,7 @@ def handlers : List (String × (List Sexp → String)) := [
         .list [.atom "free_names_resolved", b (decide (FreeNamesResolved f))],
         .list [.atom "fixed_names_unused", b (decide (FixedNamesUnused f))],
         .list [.atom "fixed_names_not_variants", b (decide (FixedNamesNotVariants f))],
+        .list [.atom "converter_roots_listed", b (reqs.all fun r => r.level != .converter || Gen.Naming.converterRoots.contains r.call.root)],
         .list (.atom "converter" :: (converterNames f reqs).map .atom),
         .list (.atom "transpiler" :: (transpilerNames f reqs).map .atom),
         .list (.atom "classes" :: (classPairs f roots).map (fun p => Sexp.list [.atom p.1, .atom p.2]))]))),
